@@ -550,3 +550,14 @@ package iavl
 //@   ensures [inner] old(node.hash) == nil && res != nil && node.subtreeHeight != 0 && node.leftNode != node && node.rightNode != node && len(node.leftNode.hash) == 32 && len(node.rightNode.hash) == 32 ==> node.hash == res && len(res) == 32 && ord(res) == shaS(appB(appB(appV(appV(appV(SNil, node.subtreeHeight), node.size), version), ord(node.leftNode.hash), 32), ord(node.rightNode.hash), 32))
 //@   ensures [frame] nframe(old(heap(N)), heap(N), old(na))
 //@   modifies node.hash
+
+// ---------------------------------------------------------------- nodedb.go: writing nodes (C09/C12: no stale cache entry survives a re-written key)
+
+//@ func (*nodeDB).SaveNode(ndb, node) (err)
+//@   props C09 C12
+//@   requires ndb != nil && node != nil && ndb.batch != nil && ndb.nodeCache != nil && ndb.logger != nil
+//@   requires node.subtreeHeight != 0 && node.leftNodeKey != nil ==> len(node.leftNodeKey) == 12 || len(node.leftNodeKey) == 32
+//@   requires node.subtreeHeight != 0 && node.rightNodeKey != nil ==> len(node.rightNodeKey) == 12 || len(node.rightNodeKey) == 32
+//@   ensures [nokey] old(node.nodeKey) == nil ==> err != nil
+//@   ensures [nostale] err == nil ==> cachemap[ndb.nodeCache][ckeyOf(node)] == node || cachemap[ndb.nodeCache][ckeyOf(node)] == nil
+//@   modifies *
